@@ -28,7 +28,11 @@ Init0 == [case |-> 0, os |-> InitObs, c |-> [cap |-> 0], cOK |-> FALSE, gz |-> F
 
 Bad(s, ln, ids, what) == {<<s.case, ln, id, what>> : id \in ids}
 
-ProgOf(e) == [i \in DOMAIN e.prog |-> Op(e.prog[i][1], e.prog[i][2])]
+\* "writev" is Write::write_vectored over three slices (2n/3 bytes, empty, the rest); the code's (default)
+\* implementation is a write of the first non-empty slice
+FirstSlice(n) == LET cut == (n * 2) \div 3 IN IF cut > 0 THEN cut ELSE n
+ProgOf(e) == [i \in DOMAIN e.prog |-> IF e.prog[i][1] = "writev" THEN Op("write", FirstSlice(e.prog[i][2]))
+                                       ELSE Op(e.prog[i][1], e.prog[i][2])]
 
 OnReset(s, e) ==
   [Init0 EXCEPT !.case = e.case, !.viol = s.viol, !.drift = s.drift, !.cases = s.cases + 1,
@@ -58,6 +62,8 @@ OnBuild(s, e, ln) ==
                           \cup Bad(s, ln, IF c15 THEN Enforce \cap {"C15", "C17"} ELSE {}, "writer for HEAD / none for GET")]
 
 DoneCore(d) == [op |-> d.op, n |-> d.n, res |-> d.res, k |-> d.k, sdrop |-> d.sdrop, buf |-> d.buf]
+\* (a recorded operation: n1 is the length of the first non-empty slice of a vectored write, n otherwise)
+DoneCoreE(d) == [op |-> d.op, n |-> d.n1, res |-> d.res, k |-> d.k, sdrop |-> d.sdrop, buf |-> d.buf]
 RCore(r) == [res |-> r.res, n |-> r.n, fs |-> r.fs, single |-> r.single, lo |-> r.lo, up |-> r.up, eos |-> r.eos]
 
 OnStep(s, e, ln) ==
@@ -85,13 +91,13 @@ OnStep(s, e, ln) ==
       imp == IF ~s.cOK THEN [ok |-> FALSE, c |-> s.c]
              ELSE IF isStart
              THEN LET r == RunLocal(s.c, <<>>) IN
-                  [ok |-> [i \in DOMAIN r.done |-> DoneCore(r.done[i])] = [i \in DOMAIN e.done |-> DoneCore(e.done[i])]
+                  [ok |-> [i \in DOMAIN r.done |-> DoneCore(r.done[i])] = [i \in DOMAIN e.done |-> DoneCoreE(e.done[i])]
                           /\ Snap(r.c) = e.snap, c |-> r.c]
              ELSE IF e.t = "P"
              THEN IF ~PRunnable(s.c) THEN [ok |-> FALSE, c |-> s.c]
                   ELSE LET r == PStep(s.c)
                            wk == IF s.c.todo[1].m = "wake" THEN s.c.todo[1].w ELSE 0
-                       IN [ok |-> /\ [i \in DOMAIN r.done |-> DoneCore(r.done[i])] = [i \in DOMAIN e.done |-> DoneCore(e.done[i])]
+                       IN [ok |-> /\ [i \in DOMAIN r.done |-> DoneCore(r.done[i])] = [i \in DOMAIN e.done |-> DoneCoreE(e.done[i])]
                                   /\ Snap(r.c) = e.snap /\ wk = e.wake
                                   /\ ProducerFinished(r.c) = e.pfin,
                            c |-> r.c]
@@ -116,8 +122,11 @@ OnFinal(s, e, ln) ==
       c17 == clean /\ (IF s.gzhdr THEN ~member ELSE ~e.identical)
       \* C09 also: whatever was delivered of a gzip body is a valid prefix (nothing wrong produced)
       c09b == s.gz /\ (e.dec.corrupt \/ e.dec.lcp # e.dec.decoded_len)
+      \* C15: the body of a HEAD response is empty (whatever coding its headers announce) and ends cleanly
+      c15 == s.mclass = "head" /\ (e.delivered # 0 \/ (e.alive /\ e.term /\ s.os.term # "end"))
   IN [s EXCEPT !.built = FALSE,
                !.viol = s.viol \cup Bad(s, ln, IF c09 \/ c09b THEN Enforce \cap {"C09"} ELSE {}, "gzip member")
+                          \cup Bad(s, ln, IF c15 THEN Enforce \cap {"C15"} ELSE {}, "HEAD body not empty")
                           \cup Bad(s, ln, IF c17 THEN Enforce \cap {"C17"} ELSE {}, "body coding vs header")]
 
 Step(s, e, ln) ==
